@@ -23,7 +23,7 @@ from ..sym import SymBytes, SymInt, W, byte_of, sym_var
 def tier_opts(tier):
     if tier == "quick":
         return dict(N=5, class_paths=1000, class_seconds=40, corrupt_paths=200, regions=shapes.REGIONS_QUICK)
-    return dict(N=7, class_paths=20000, class_seconds=600, corrupt_paths=4000, regions=shapes.REGIONS_QUICK)
+    return dict(N=7, class_paths=12000, class_seconds=90, corrupt_paths=2500, regions=shapes.REGIONS_QUICK, wall_budget=27 * 60)
 
 
 def all_tags(cls, seen=None):
@@ -181,6 +181,8 @@ class Corrupt(Base):
 def task_class(args):
     cid, opts, mode = args
     t0 = time.time()
+    if opts.get("deadline") and t0 > opts["deadline"]:
+        return {"class": cid, "mode": mode, "stats": Stats().to_json(), "wall": 0, "skipped": True}
     cls = shapes.class_by_id(cid)
     stats = Stats()
     deadline = t0 + opts["class_seconds"]
@@ -202,6 +204,8 @@ def check(tier):
     t0 = time.time()
     rep = install.install()
     opts = tier_opts(tier)
+    if opts.get("wall_budget"):
+        opts["deadline"] = t0 + opts["wall_budget"]
     classes = shapes.all_entity_classes()
     reps = shapes.signature_representatives(classes)
     targets = reps if tier == "quick" else classes
@@ -216,11 +220,15 @@ def check(tier):
     tasks += [(shapes.class_id(c), opts, "corrupt") for c in corrupt_targets]
     total = Stats()
     capped = []
+    skipped = []
     by_mode = {"arbitrary": 0, "corrupt": 0}
     samples = []
     for r in runner.pool_map(task_class, tasks, progress=300):
         st = Stats.from_json(r["stats"])
         total.merge(st)
+        if r.get("skipped"):
+            skipped.append((r["class"], r["mode"]))
+            continue
         by_mode[r["mode"]] += st.paths
         if st.capped:
             capped.append((r["class"], r["mode"], st.remaining))
@@ -240,7 +248,7 @@ def check(tier):
         outside=["buffers longer than N bytes other than corrupted valid encodings", "more than one corrupted byte, insertions/deletions other than through the arbitrary buffer",
                  "wall-clock time (work is bounded through the loop/progress clauses instead)", "MemoryError from allocating a huge payload is not modelled (reads return at most what the source holds)"],
         rule="one state = one completed symbolic path of the real reader over the symbolic buffer; distinct by construction",
-        extra={"paths_by_mode": by_mode, "classes_with_path_cap_hit": len(capped), "cap_hits": capped[:40],
+        extra={"paths_by_mode": by_mode, "tasks_not_reached_within_wall_budget": len(skipped), "tasks_not_reached_sample": skipped[:20], "classes_with_path_cap_hit": len(capped), "cap_hits": capped[:40],
                "rebinding_report": {k: v for k, v in rep.items() if k != "__keep__" and v}, "source_hashes": install.source_hashes()})
     return runner.finish("C10", tier, t0, level="model_checking", coverage=cov, assumptions=["A1", "A2", "A3", "A5q", "A7", "A8"],
                          cex=total.cex, inconclusive=inconclusive, samples=samples)
